@@ -271,7 +271,7 @@ def _r2_interp(model, res, c, key):
         return False
     results = {}
     from ..absint import Exc
-    for name in ('OWN', 'BOTH', 'REGISTERED', 'UNKNOWN', 'OWN-REJECTS'):
+    for name in ('OWN', 'BOTH', 'REGISTERED', 'UNKNOWN', 'OWN-REJECTS', 'OWN-FALSY'):
         it = Interp(model, opaque=opaque)
 
         def call(interp, st, name=name):
@@ -284,6 +284,10 @@ def _r2_interp(model, res, c, key):
                 return Sym('int', 'OWNRESULT')
             interp.extern['hx:own-fn'] = own
             interp.extern['hx:registry-fn'] = lambda i2, a, kw: (i2.state.events.append(('registry', list(a))), Sym('int', 'REGRESULT'))[1]
+            if name == 'OWN-FALSY':
+                # a callable whose truth value is False: still the function registered under the name
+                interp.extern['hx:falsy-callable:own'] = own
+                interp.call(interp.get_method(parser, 'set_function'), [Const(name), Builtin('hx:falsy-callable:own')])
             if name in ('OWN', 'BOTH', 'OWN-REJECTS'):
                 interp.call(interp.get_method(parser, 'set_function'), [Const(name), Builtin('hx:own-fn')])
             if name == 'OWN-REJECTS':
@@ -314,7 +318,7 @@ def _r2_interp(model, res, c, key):
                                   'function twice and lets a call with a dangling separator succeed with fewer arguments than were written'
                                   % ('returns' if o.kind == 'return' else 'raises', o.value, calls or 'none'), case=case, func=key[1])
                 continue
-            if name in ('OWN', 'BOTH'):
+            if name in ('OWN', 'BOTH', 'OWN-FALSY'):
                 ok = o.kind == 'return' and calls == [('own', ['a0', 'a1'])] and getattr(o.value, 'name', None) == 'OWNRESULT'
                 want = 'one call of the function registered on the parser with (a0, a1); its result is the value'
             elif name == 'REGISTERED':
@@ -324,7 +328,8 @@ def _r2_interp(model, res, c, key):
                 ok = o.kind == 'raise' and isinstance(o.value, Err) and o.value.message == '#NAME?' and not calls
                 want = 'the #NAME? singleton raised (not returned as a value), nothing called'
             case = {'name is': {'OWN': 'set on the parser only', 'BOTH': 'set on the parser and a built-in', 'REGISTERED': 'a built-in only',
-                                'UNKNOWN': 'known nowhere'}[name]}
+                                'UNKNOWN': 'known nowhere',
+                                'OWN-FALSY': 'set on the parser only, to a callable whose truth value is False (e.g. an empty callable container)'}[name]}
             res.ob('R2', site, case, ok, '%s %r calls=%s' % (o.kind, o.value, calls))
             if not ok:
                 res.violation('R2', '%s:%s:lookup-%s' % (key[0], key[1], name.lower()), m.where(f),
@@ -739,6 +744,42 @@ def _r6(model, res, c):
                 res.violation('R6', 'lexer:t_VARIABLE:name-not-lexable', g.lexer_module.where(vt.node),
                               'the variable name %r (%s) is not one VARIABLE token: a variable set under that name can never be read back - '
                               'the formula consisting of the name gives #NAME?/#ERROR! instead of the value' % (w2, what), case=w2, func='t_VARIABLE')
+    # ... and the lexer takes the whole name: python's alternation prefers the first alternative that matches, not the longest, so an
+    # inclusion of languages is not enough - the names built from one letter of each kind (lower, upper, underscore, digit), up to five
+    # characters, that no earlier token claims at their first character are matched with the token's own regex as ply applies it
+    if vt is not None:
+        import itertools
+        import re as _re
+        flags = getattr(vt.regex, 'flags', 0) | _re.VERBOSE
+        try:
+            vre = _re.compile(vt.regex, flags)
+            earlier_v = []
+            for t in g.lex_tokens:
+                if t.order < vt.order:
+                    earlier_v.append((t.name, _re.compile(t.regex, getattr(t.regex, 'flags', 0) | _re.VERBOSE)))
+        except _re.error as e:
+            vre = None
+            res.ob('R6', 'lexer:t_VARIABLE', 'whole-name match', True, 'undecided: %s' % e)
+        if vre is not None:
+            spec1, spec2 = _re.compile(r'[A-Za-z_]+\Z'), _re.compile(r'[A-Za-z][A-Za-z_0-9]+\Z')
+            n_names, short = 0, None
+            for ln in range(1, 6):
+                for tup in itertools.product('aZ_7', repeat=ln):
+                    w_ = ''.join(tup)
+                    if not (spec1.match(w_) or spec2.match(w_)):
+                        continue
+                    if any(r_.match(w_) for _, r_ in earlier_v):
+                        continue        # claimed (in part) by an earlier token, e.g. the cell tokens: not a variable name
+                    n_names += 1
+                    mm = vre.match(w_)
+                    if (mm is None or mm.end() != len(w_)) and short is None:
+                        short = (w_, mm.group(0) if mm else None)
+            res.ob('R6', 'lexer:t_VARIABLE', '%d representative names are matched in full' % n_names, short is None, repr(short))
+            if short is not None:
+                res.violation('R6', 'lexer:t_VARIABLE:partial-match', g.lexer_module.where(vt.node),
+                              'the variable name %r is lexed only up to %r (an earlier alternative of the token regex matches a prefix and python '
+                              'takes the first alternative that matches): the rest becomes other tokens and the name can never be read back'
+                              % short, case=short[0], func='t_VARIABLE')
     # ... and is not pre-empted by an earlier token
     for t in g.lex_tokens:
         if t.order < ft.order:
